@@ -249,7 +249,8 @@ class _Continue(Exception):
 
 BUILTIN_TYPES = ('int', 'bool', 'bytes', 'bytearray', 'str', 'tuple', 'list', 'dict', 'set', 'frozenset', 'object', 'float', 'type')
 BUILTIN_FUNCS = ('len', 'max', 'min', 'range', 'abs', 'divmod', 'isinstance', 'sum', 'ord', 'chr', 'reversed', 'enumerate', 'zip',
-                 'any', 'all', 'hex', 'pow', 'sorted', 'super', 'iter', 'next', 'callable', 'repr', 'issubclass', 'hasattr', 'getattr')
+                 'any', 'all', 'hex', 'pow', 'sorted', 'super', 'iter', 'next', 'callable', 'repr', 'issubclass', 'hasattr', 'getattr',
+                 'setattr', 'vars', 'format', 'bin', 'oct', 'round')
 BUILTIN_EXCS = tuple(EXC_PARENTS) + ('BaseException',)
 
 EXT_PURE = {
@@ -432,10 +433,12 @@ class Evaluator(object):
                     break
             if av is not None:
                 return self._class_attr(av[0], name, av[1])
-            if obj.ival is not None:
-                return self._native_attr(obj.ival, name)
             if name == '__class__':
                 return ClassRef(ci)
+            if name == '__dict__':
+                return obj.attrs
+            if obj.ival is not None:
+                return self._native_attr(obj.ival, name)
             raise Raised('AttributeError', '%s has no attribute %s' % (ci.name, name))
         if isinstance(obj, ClassRef):
             ci = obj.ci
@@ -758,6 +761,10 @@ class Evaluator(object):
             return chr(_num(args[0]))
         if n == 'hex':
             return hex(_num(args[0]))
+        if n in ('bin', 'oct'):
+            return (bin if n == 'bin' else oct)(_num(args[0]))
+        if n == 'round':
+            return round(*[_num(a) for a in args])
         if n == 'repr':
             return repr(self._native(args[0]))
         if n == 'reversed':
@@ -784,6 +791,13 @@ class Evaluator(object):
                 if ex.name == 'AttributeError':
                     return False
                 raise
+        if n == 'setattr':
+            self._setattr(args[0], args[1], args[2])
+            return None
+        if n == 'vars' and len(args) == 1 and isinstance(args[0], Obj):
+            return args[0].attrs
+        if n == 'format':
+            return format(self._native(args[0]), *[self._native(a) for a in args[1:]])
         if n == 'getattr':
             try:
                 return self._getattr(args[0], args[1])
@@ -1372,8 +1386,21 @@ class _Frame(object):
         for v in node.values:
             if isinstance(v, ast.Constant):
                 parts.append(str(v.value))
+            elif isinstance(v, ast.FormattedValue):
+                val = self.E._native(self.ev(v.value))
+                if v.conversion == ord('r'):
+                    val = repr(val)
+                elif v.conversion == ord('s'):
+                    val = str(val)
+                elif v.conversion == ord('a'):
+                    val = ascii(val)
+                spec = self.ev_JoinedStr(v.format_spec) if v.format_spec is not None else ''
+                try:
+                    parts.append(format(val, spec))
+                except Exception as ex:
+                    raise Raised(type(ex).__name__, str(ex))
             else:
-                parts.append('{}')
+                raise NoEval('f-string part %s' % type(v).__name__)
         return ''.join(parts)
 
     def ev_IfExp(self, node):
